@@ -551,7 +551,10 @@ def algorithms_agree(ck, tier, seed, salt=222):
         seen = set()
         for a in range(4):
             for b in range(a + 1, 4):
-                bad = compare_physical(P[ALGS[a]], P[ALGS[b]])
+                # a weight ratio of 1e8 puts the condition number of the normal equations near 1e10: the tolerance
+                # follows it (C02: 'up to a tolerance proportional to the conditioning of the problem')
+                bad = compare_physical(P[ALGS[a]], P[ALGS[b]], tol_m=1e-6, rel=1e-5, res_tol=1e-2) \
+                    if "tight-observation" in feats else compare_physical(P[ALGS[a]], P[ALGS[b]])
                 for key, msg, okey in bad:
                     k = pre + ":%s:%s-vs-%s" % (key, ALGS[a], ALGS[b])
                     if key in seen:
